@@ -5,13 +5,16 @@
    re-schedules itself, cancels the order or reduces its replicas -- unless the refund of the
    cancellation fails (cancel_stuck: the order then stays, without shards and without a
    scheduled check; needs an order whose payer has no payment address or an insolvent
-   escrow). The bounded-response statement over whole histories is NOT proved; the
-   refutations below exhibit the two known ways an order stays unresolved (finding D15).
+   escrow). Bounded response is proved by a variant (Proofs/Progress.v): along any sequence of checks of
+   one order that leave it unresolved -- with anything in between that keeps the order, its shards' providers
+   and the pledged population -- the number of checks is at most 11 + the number of pledged providers not yet
+   tried for the order (checks_bounded, checks_bounded_by_population); what the theorem does not cover is that
+   the NEXT check is actually scheduled: the refutations below exhibit the two known ways it is not (finding D15).
    The variant of progress is proved at the call site (Proofs/Placement.v, timeout_new_shards_fresh): every
    shard a timeout check creates goes to an eligible provider that neither holds nor has timed out on a shard
    of the order, so each re-assignment uses up a provider; the clause is also the monitor
    sel.order_sps_distinct on implementation states. *)
-From SaoVerif Require Import Base.Prelude Base.Ints Base.Dec Model.Did Model.Types Model.Monad Model.Bank Model.Select Model.Node Model.Storage Model.Sao Model.Hooks Model.App Model.Spec Proofs.Schedule Proofs.RefInt Proofs.Placement.
+From SaoVerif Require Import Base.Prelude Base.Ints Base.Dec Model.Did Model.Types Model.Monad Model.Bank Model.Select Model.Node Model.Storage Model.Sao Model.Hooks Model.App Model.Spec Proofs.Schedule Proofs.RefInt Proofs.Placement Proofs.Progress.
 From RecordUpdate Require Import RecordUpdate.
 Import RecordSetNotations.
 
@@ -79,3 +82,32 @@ Theorem C12_timeout_reassign_nonvacuous :
     (exists sh1, shards s' !! 1 = Some sh1 /\ sh_status sh1 = ShardTimeout).
 Proof. first [exact timeout_reassign_nonvacuous | apply timeout_reassign_nonvacuous]. Qed.
 Print Assumptions C12_timeout_reassign_nonvacuous.
+
+(* every check resolves the order or finds it young or re-assigns to providers not yet tried *)
+Theorem C12_timeout_check_cases : forall cx oid s s' o,
+  handle_timeout_order cx oid s = Ok tt s' -> orders s !! oid = Some o ->
+  o_status o <> OrderPending -> u64 (cx_height cx + o_timeout o) < u64 (o_created o + o_duration o) ->
+  has_waiting s o -> side cx s o ->
+  resolved oid s' \/ young cx oid o s s' \/ reassigned oid o s s'.
+Proof. first [exact timeout_check_cases | apply timeout_check_cases]. Qed.
+Print Assumptions C12_timeout_check_cases.
+
+(* bounded response by a variant *)
+Theorem C12_checks_bounded : forall oid tau c cxs h s o,
+  chain oid tau h cxs s -> orders s !! oid = Some o -> o_created o = c -> 0 < tau < two31 -> 0 <= c <= h ->
+  Z.of_nat (length cxs) <= Z.max 0 ((c + MAX_TRIES * tau - h) / tau) + Z.of_nat (untried s o) + 1.
+Proof. first [exact checks_bounded | apply checks_bounded]. Qed.
+Print Assumptions C12_checks_bounded.
+
+Theorem C12_checks_bounded_by_population : forall oid tau cxs h s o,
+  chain oid tau h cxs s -> orders s !! oid = Some o -> 0 < tau < two31 -> 0 <= o_created o <= h ->
+  Z.of_nat (length cxs) <= 11 + Z.of_nat (size (pledges s)).
+Proof. first [exact checks_bounded_by_population | apply checks_bounded_by_population]. Qed.
+Print Assumptions C12_checks_bounded_by_population.
+
+Theorem C12_chain_nonvacuous :
+  chain 1 100 5 [W.cxh 105; W.cxh 205] W.s1 /\
+  (exists o, orders W.s1 !! 1 = Some o /\ untried W.s1 o = 1%nat /\ o_created o = 5 /\ o_timeout o = 100) /\
+  (exists o', orders p_s2' !! 1 = Some o' /\ untried p_s2' o' = 0%nat /\ length (o_shards o') = 2%nat).
+Proof. first [exact chain_nonvacuous | apply chain_nonvacuous]. Qed.
+Print Assumptions C12_chain_nonvacuous.
